@@ -52,6 +52,9 @@ LAYOUTS = [
     # core.quotePath=false: git still quotes a name with a blank, but leaves the non-ASCII bytes as they are
     {"pfile": "gr\u00fcne version.txt", "ufile": "\u00fcbrige datei.txt", "vp": "MAJOR.MINOR.PATCH", "cur": "1.2.3", "args": ["--patch"],
      "git_config": [("core.quotePath", "false")]},
+    # a spelling pathlib does not normalise
+    {"pfile": "a.txt", "cfg_spelling": "docs/../a.txt", "ufile": "docs/notes.md", "vp": "MAJOR.MINOR.PATCH", "cur": "1.2.3",
+     "args": ["--patch"], "extra_files": {"docs/keep.txt": "keep\n"}},
     # a name that looks like git's rename notation
     {"pfile": "draft -> final.txt", "ufile": "x -> y.md", "vp": "MAJOR.MINOR.PATCH", "cur": "1.2.3", "args": ["--patch"]},
     # the unrelated file's name is a string prefix of the pattern file's path (README next to README.md)
@@ -68,7 +71,7 @@ def cases(ctx):
             if rep > 0 and li != rep % len(LAYOUTS):
                 continue
             if rep == 0 and li in (1, 2) and ctx.quick:
-                # quick: the full product on layouts 0, 3..10; layouts 1, 2 only in thorough
+                # quick: the full product on layouts 0, 3..11; layouts 1, 2 only in thorough
                 continue
             for st in STATUSES:
                 for role in ROLES:
@@ -241,6 +244,8 @@ def run_case(ctx, case):
             ufile = "vendor/lib"
         write(d, "bumpver.toml", cfg)
         write(d, "keep.txt", "keep\n")
+        for rel_, text_ in lay.get("extra_files", {}).items():
+            write(d, rel_, text_)
         late = {}   # files that must not be part of the initial commit
         for rel, st, content in ((pfile, ps, pcontent), (ufile, us, ucontent)):
             if st.startswith("sub:"):
